@@ -26,7 +26,7 @@ LEVEL = "fault_enumeration"
 RULE = ("fate vectors: every attempt of a payload is delivered+ACKed / packet lost / ACK lost; enumerated completely "
         "for arc<=2 (quick) or arc<=3 (thorough) with force_retry<=1 (all 2^(T+1)-1 prefixes-of-failures vectors over "
         "T=(1+arc)(1+force_retry) attempts), plus for every arc 0..15 'first success at attempt k' and 'all fail'; beyond "
-        "that seeded histories of up to 6 send/send(list)/resend calls with seeded loss ordinals, blackouts, peer "
+        "that seeded histories of up to 6 send/send(list)/resend calls with seeded loss ordinals, blackouts, context re-entry (power down/up between calls), targeted stale-ACK-payload histories, bus speeds up to 1.5 ms per transaction, peer "
         "deaf/absent/full, ACK payloads, ask_no_ack, auto-ack off, every ard and data rate. Non-trivial: at least one "
         "transmit cycle ran; distinct = distinct abstract event sequences")
 ASSUMPTIONS = ["chip/air model decisions M1 (STATUS is clocked out before a command takes effect), M2, M3, M4, M6, M7, M9",
@@ -154,6 +154,38 @@ def make(i, base_seed, tier, lite_tx=False, lite_rx=False):
             ops.append({"op": "peer", "do": "drain"})
         if mode == "ackpl" and rng.random() < 0.3:
             ops.append({"op": "tx_drain"})
+    xr = stream(seed, "ext")
+    if xr.random() < 0.06:
+        # targeted history (state carried across calls): an ACK payload left unread by send(send_only=True), then a send that fails
+        # completely, then - the medium healed, the peer armed with a fresh ACK payload - resend()/send() that is acknowledged;
+        # half of these on a very slow bus, so that the order of the driver's transactions relative to the radio's activity matters
+        scn["mode"] = mode = "ackpl"
+        cfg["auto_ack"] = True
+        scn["peer"] = "listening"
+        scn["arc"] = xr.choice([0, 1, 3])
+        pl = lambda: hx(common.rand_payload(xr, xr.randint(1, 32)))
+        ops = [{"op": "peer", "do": "load_ack", "bufs": [pl() for _ in range(xr.randint(1, 3))]},
+               {"op": "send", "buf": pl(), "fr": 0, "so": True, "na": False},
+               {"op": "blackout", "on": True},
+               {"op": "send", "buf": pl(), "fr": xr.choice([0, 0, 1]), "so": True, "na": False},
+               {"op": "blackout", "on": False},
+               {"op": "peer", "do": "load_ack", "bufs": [pl() for _ in range(xr.randint(1, 2))]},
+               xr.choice([{"op": "resend", "so": False}, {"op": "resend", "so": False}, {"op": "send", "buf": pl(), "fr": 0, "so": False, "na": False}]),
+               {"op": "resend", "so": xr.random() < 0.5}]
+        if xr.random() < 0.5:
+            scn["tx_knobs"] = dict(scn["tx_knobs"], spi_overhead_us=xr.choice([800, 1500]), spi_jitter_us=xr.choice([0, 200]))
+        scn["ops"] = ops
+        scn["faults"] = []
+        return scn
+    if not (lite_tx or lite_rx) and xr.random() < 0.2:
+        # the application leaves and re-enters the radio's context between calls (power saving / a radio shared between objects)
+        for k_ in sorted(xr.sample(range(len(ops) + 1), min(len(ops) + 1, xr.randint(1, 2))), reverse=True):
+            if k_ and ops[k_ - 1]["op"] == "blackout" and ops[k_ - 1]["on"]:
+                continue
+            ops.insert(k_, {"op": "reenter"})
+    if xr.random() < 0.15:
+        # a very slow bus (interpreted MCU, bit-banged SPI): one transaction outlasts a re-transmission and its ACK
+        scn["tx_knobs"] = dict(scn["tx_knobs"], spi_overhead_us=xr.choice([800, 1500]), spi_jitter_us=xr.choice([0, 200]))
     scn["ops"] = ops
     ar = stream(seed, "air")
     faults = []
@@ -318,6 +350,14 @@ def _run(scn, w, res):
             continue
         if op["op"] == "blackout":
             w.air.blackout = bool(op["on"])
+            continue
+        if op["op"] == "reenter":
+            sim.log("call", "T", "reenter")
+            tx.__exit__(None, None, None)
+            sim.advance(int(1.7 * MS))
+            tx.__enter__()
+            tx.listen = False
+            sim.count("context_reentered")
             continue
         if op["op"] == "tx_drain":
             for _ in range(8):
